@@ -119,7 +119,8 @@ def run_one(sid):
                 viol = [l.strip() for l in p.stdout.splitlines() if l.startswith("  ") and "::" in l and not l.startswith("      ")]
                 fired[pid] = viol[:4]
             elif p.returncode == 2:
-                fired[pid] = ["ANALYSIS-ERROR " + p.stdout.strip().splitlines()[0][:200]]
+                errs = [l for l in p.stdout.splitlines() if l.startswith("ANALYSIS-ERROR")]
+                fired[pid] = ["ANALYSIS-ERROR " + (errs[0] if errs else p.stdout.strip().splitlines()[0])[:200]]
         own = meta["breaks_property"]
         res = {"property": own, "own_check": "fires" if (own in fired and not fired[own][0].startswith("ANALYSIS")) else (
             "not-claimed" if own not in claimed else ("analysis-error" if own in fired else "MISSED")), "fired": fired}
